@@ -21,6 +21,8 @@ thread_local! {
 }
 
 fn fastrand(upper: usize) -> usize {
+    #[cfg(metrics_verif)]
+    metrics::verif::point("res.rand.post", &[upper as i64]);
     FAST_RNG.with(|rng| {
         // SAFETY: We know it's safe to take a mutable reference since we're getting a pointer to a thread-local value,
         // and the reference never outlives the closure executing on this thread.
@@ -45,18 +47,30 @@ impl Reservoir {
     }
 
     fn push(&self, value: f64) {
+        #[cfg(metrics_verif)]
+        metrics::verif::point("res.claim.pre", &[]);
         let idx = self.count.fetch_add(1, Relaxed);
+        #[cfg(metrics_verif)]
+        metrics::verif::point("res.claim.post", &[idx as i64, self.values.len() as i64]);
         if idx < self.values.len() {
+            #[cfg(metrics_verif)]
+            metrics::verif::point("res.store.pre", &[idx as i64]);
             self.values[idx].store(value.to_bits(), Relaxed);
         } else {
             let maybe_idx = fastrand(idx);
+            #[cfg(metrics_verif)]
+            metrics::verif::point("res.draw.post", &[maybe_idx as i64]);
             if maybe_idx < self.values.len() {
+                #[cfg(metrics_verif)]
+                metrics::verif::point("res.store.pre", &[maybe_idx as i64]);
                 self.values[maybe_idx].store(value.to_bits(), Relaxed);
             }
         }
     }
 
     fn drain(&self) -> Drain<'_> {
+        #[cfg(metrics_verif)]
+        metrics::verif::point("res.count.pre", &[]);
         let unsampled_len = self.count.load(Relaxed);
         let len = if unsampled_len > self.values.len() { self.values.len() } else { unsampled_len };
         Drain { reservoir: self, unsampled_len, len, idx: 0 }
@@ -95,6 +109,8 @@ impl<'a> Iterator for Drain<'a> {
 
     fn next(&mut self) -> Option<Self::Item> {
         if self.idx < self.len {
+            #[cfg(metrics_verif)]
+            metrics::verif::point("res.read.pre", &[self.idx as i64]);
             let value = f64::from_bits(self.reservoir.values[self.idx].load(Relaxed));
             self.idx += 1;
             Some(value)
@@ -112,6 +128,8 @@ impl ExactSizeIterator for Drain<'_> {
 
 impl<'a> Drop for Drain<'a> {
     fn drop(&mut self) {
+        #[cfg(metrics_verif)]
+        metrics::verif::point("res.reset.pre", &[self.unsampled_len as i64, self.len as i64]);
         self.reservoir.count.store(0, Release);
     }
 }
@@ -158,7 +176,11 @@ impl AtomicSamplingReservoir {
 
     /// Pushes a sample into the reservoir.
     pub fn push(&self, value: f64) {
+        #[cfg(metrics_verif)]
+        metrics::verif::point("res.side.pre", &[]);
         let use_primary = self.use_primary.load(Relaxed);
+        #[cfg(metrics_verif)]
+        metrics::verif::point("res.side.post", &[use_primary as i64]);
         if use_primary {
             self.primary.push(value);
         } else {
@@ -176,8 +198,12 @@ impl AtomicSamplingReservoir {
         let _guard = self.swap.lock().unwrap();
 
         // Swap the active reservoir.
+        #[cfg(metrics_verif)]
+        metrics::verif::point("res.swap.pre", &[]);
         let use_primary = self.use_primary.load(Acquire);
         self.use_primary.store(!use_primary, Release);
+        #[cfg(metrics_verif)]
+        metrics::verif::point("res.swap.post", &[use_primary as i64]);
 
         // Consume the previous reservoir.
         let drain = if use_primary { self.primary.drain() } else { self.secondary.drain() };
